@@ -124,14 +124,53 @@ theorem intersect_mem (ls : List (List Nat)) (r : List Nat) (h : intersect ls = 
     subst h
     exact mem_intersect l0 rest x
 
-/-- Known finding C15-F1 (negation witness).  The full statement "mutually unsatisfiable recognised constraints
-are reported as errors" is false for the membership constraints: the intersection has no error outcome, an
-unsatisfiable conjunction `self.x in {0,1} and self.x in {2}` is answered with the empty literal set.
-Errors for unsatisfiable constraints are proved for the length dimension only
-(`reduce_err_iff_unsat`, `merge_err_iff_unsat`). -/
-theorem set_unsat_reported_full_fails :
-    ∃ ls, (¬ ∃ x, ∀ l ∈ ls, x ∈ l) ∧ intersect ls = some [] :=
-  ⟨[[0, 1], [2]], by simp, by rfl⟩
+/-- "Mutually unsatisfiable recognised constraints are reported as errors", membership part, within one class
+(former known finding C15-F1, repaired): the reduce step of `infer_set_constraints_by_property_from_invariants`
+reports an error exactly when no literal belongs to all the constant sets of the property … -/
+theorem reduceSet_err_iff_unsat (site : String) (ls : List (List Nat)) (hne : ls ≠ []) :
+    reduceSet site ls = .err ↔ ¬ ∃ x, ∀ l ∈ ls, x ∈ l := by
+  cases ls with
+  | nil => exact absurd rfl hne
+  | cons l0 rest =>
+    have hm := mem_intersect l0 rest
+    simp only [reduceSet, intersect]
+    generalize l0.filter (fun v => rest.countP (fun l => decide (v ∈ l)) = rest.length) = r at hm
+    cases r with
+    | nil =>
+      simp only [List.isEmpty_nil, if_true, true_iff]
+      rintro ⟨x, hx⟩
+      exact absurd ((hm x).mpr hx) List.not_mem_nil
+    | cons y ys =>
+      simp only [List.isEmpty_cons, Bool.false_eq_true, if_false, reduceCtorEq, false_iff]
+      exact fun h => h ⟨y, (hm y).mp List.mem_cons_self⟩
+
+/-- … and otherwise yields exactly the common literals (never an empty `enum`). -/
+theorem reduceSet_ok (site : String) (ls : List (List Nat)) (r : List Nat) (h : reduceSet site ls = .ok r) :
+    r ≠ [] ∧ ∀ x, x ∈ r ↔ ∀ l ∈ ls, x ∈ l := by
+  simp only [reduceSet] at h
+  split at h
+  · cases h
+  · rename_i l' hl
+    split at h
+    · cases h
+    · rename_i hne
+      cases h
+      refine ⟨?_, intersect_mem ls _ hl⟩
+      intro he
+      subst he
+      exact hne rfl
+
+/-- The only crash of the reduce step is the violated pre-condition "at least one constraint". -/
+theorem reduceSet_crash_iff (site : String) (ls : List (List Nat)) (s : String) :
+    reduceSet site ls = .crash s ↔ ls = [] ∧ s = site := by
+  cases ls with
+  | nil => simp [reduceSet, intersect, eq_comm]
+  | cons l0 rest =>
+    simp only [reduceSet, intersect]
+    split <;> simp
+
+example : reduceSet "" [[0, 1], [2]] = .err := by rfl
+example : reduceSet "" [[0, 1], [1, 2]] = .ok [1] := by rfl
 
 /-- The only failure of the intersection is the violated pre-condition "at least one constraint". -/
 theorem intersect_none_iff (ls : List (List Nat)) : intersect ls = none ↔ ls = [] := by
@@ -140,6 +179,33 @@ theorem intersect_none_iff (ls : List (List Nat)) : intersect ls = none ↔ ls =
 /-- `_merge_set_of_…_constraints` (parent/child): exactly the common literals. -/
 theorem mergeSet_mem (a b : List Nat) (x : Nat) : x ∈ mergeSet a b ↔ x ∈ a ∧ x ∈ b :=
   mem_mergeSet a b x
+
+/-- The membership part of "unsatisfiable constraints are reported" across inheritance / stacking (former known
+finding C15-F1, repaired): the merge of two literal sets answers with the error exactly when they share no
+literal … -/
+theorem mergeSetE_none_iff_unsat (a b : List Nat) : mergeSetE a b = none ↔ ¬ ∃ x, x ∈ a ∧ x ∈ b := by
+  simp only [mergeSetE]
+  cases hm : mergeSet a b with
+  | nil =>
+    simp only [List.isEmpty_nil, if_true, true_iff]
+    rintro ⟨x, hx⟩
+    have := (mem_mergeSet a b x).mpr hx
+    rw [hm] at this
+    exact absurd this List.not_mem_nil
+  | cons y ys =>
+    simp only [List.isEmpty_cons, Bool.false_eq_true, if_false, reduceCtorEq, false_iff]
+    exact fun h => h ⟨y, (mem_mergeSet a b y).mp (hm ▸ List.mem_cons_self)⟩
+
+/-- … and otherwise with exactly the common literals. -/
+theorem mergeSetE_mem (a b r : List Nat) (h : mergeSetE a b = some r) (x : Nat) : x ∈ r ↔ x ∈ a ∧ x ∈ b := by
+  simp only [mergeSetE] at h
+  split at h
+  · cases h
+  · cases h
+    exact mem_mergeSet a b x
+
+example : mergeSetE [0, 1] [2] = none := by rfl
+example : mergeSetE [0, 1] [2, 1, 1] = some [1] := by rfl
 
 /-- `_merge_pattern_constraints`: de-duplication keeps the conjunction of all patterns … -/
 theorem mergePats_mem (a b : List Nat) (x : Nat) : x ∈ mergePats a b ↔ x ∈ a ∨ x ∈ b :=
